@@ -105,6 +105,25 @@ func (*compiler).VisitBinaryExpr [C06]
             (c.cbb.$guard == (at(L2, c.cbb.$guard) &&
                 (bvsle(bv64(1), bvadd(ir.den(index), bv64(1))) && bvsle(bvadd(ir.den(index), bv64(1)), fieldDen(lhs, list_len_field_index)))))
 
+// ---- C01 fragment: short-circuit evaluation of `und` / `oder` ----
+// The code of the right operand is emitted into a block that is reached exactly when the block holding the branch was
+// reached and the left operand did not already decide the result (true for und, false for oder).
+func (*compiler).VisitBinaryExpr#3 [C01]
+  requires c != nil && e != nil && e.OverloadedBy == nil && e.Lhs != e.Rhs
+  requires e.Operator == ast.BIN_AND || e.Operator == ast.BIN_OR
+  cases e.Operator in {ast.BIN_AND, ast.BIN_OR}
+  at LS before call NewCondBr
+  callsite evaluate requires arg1 == e.Rhs ==> reached(LS)
+  callsite evaluate requires arg1 == e.Rhs && e.Operator == ast.BIN_AND ==> c.cbb.$guard == (at(LS, c.cbb.$guard) && ir.denb(lhs))
+  callsite evaluate requires arg1 == e.Rhs && e.Operator == ast.BIN_OR ==> c.cbb.$guard == (at(LS, c.cbb.$guard) && !ir.denb(lhs))
+  // the branch is taken on the left operand's value
+  callsite NewCondBr requires arg1 == lhs
+  // the result: the left operand's value when control comes straight from the branch (it decided), the right operand's
+  // when it comes from the block that ends the right operand's code with the jump to the join block
+  at LR before call NewBr
+  callsite NewPhi requires len(arg1) == 2 && reached(LS) && reached(LR)
+  callsite NewPhi requires exists i int :: 0 <= i && i < 2 && arg1[i].X == lhs && arg1[i].Pred == at(LS, c.cbb) && arg1[1-i].X == rhs && arg1[1-i].Pred == at(LR, c.cbb)
+
 // ================= C02: every operator application that type-checks has a consistent lowering =================
 // type classes: 1 Zahl, 2 Kommazahl, 3 Byte, 4 Wahrheitswert, 5 Buchstabe (IR: i64, double, i8, i1, i32)
 spec irOfClass(k int) int := k
